@@ -3,7 +3,7 @@
   (which original lines appear in the output of a list of placements, and in which order).
 -/
 import PatchModel.Spec.Script
-namespace PatchModel
+namespace PatchModel.Splice
 
 /-! ### operation bytes -/
 
@@ -436,4 +436,4 @@ theorem mem_srcIdxs_spliceAt (file : List Line) : ∀ pls c, increasingB file c 
           · exact hm
         · intro hm; exact Or.inr hm
 
-end PatchModel
+end PatchModel.Splice
